@@ -13,6 +13,7 @@
 #include <etl/cwchar.hpp>
 #include <etl/expected.hpp>
 #include <etl/inplace_vector.hpp>
+#include <etl/linalg.hpp>
 #include <etl/mdspan.hpp>
 #include <etl/numeric.hpp>
 #include <etl/optional.hpp>
@@ -887,6 +888,59 @@ bool static_set_ctor(int s, u32 a, bool bad)
     etl::static_set<int, 4> x(f, f + a % 5);
     return x.size() == a % 5;
 }
+
+bool bitset_string_ctor(int s, u32 a, bool bad)
+{
+    g_unmodified = [] { return true; };
+    char buf[32];
+    for (auto& c : buf) { c = (a & 1U) ? '1' : '0'; }
+    std::size_t len = bad ? 9 + a % 20 : a % 9;
+    if (s == 0) {
+        etl::bitset<8> b(etl::string_view(buf, len));
+        (void)b;
+    } else {
+        // pos / n form: effective length = min(n, size - pos)
+        std::size_t pos = a % 3;
+        etl::bitset<8> b(etl::string_view(buf, std::min<std::size_t>(len + pos, 32)), pos, bad ? etl::string_view::npos : len);
+        (void)b;
+    }
+    return true;
+}
+bool zero_capacity_vector(int s, u32 a, bool bad)
+{
+    if (!bad) { return false; } // every growing / shrinking call on a zero-capacity vector violates its precondition
+    etl::static_vector<int, 0> v;
+    g_unmodified = [&] { return v.size() == 0; };
+    int x        = 1;
+    (void)s;
+    switch (a % 4) {
+    case 0: v.push_back(x); break;
+    case 1: v.emplace_back(1); break;
+    case 2: v.pop_back(); break;
+    default: v.insert(v.begin(), x); break;
+    }
+    return true;
+}
+bool linalg_extents(int s, u32 a, bool bad)
+{
+    int xs[8] = {1, 2, 3, 4, 5, 6, 7, 8};
+    int ys[8] = {1, 2, 3, 4, 5, 6, 7, 8};
+    int zs[8] = {0};
+    std::vector<int> before(zs, zs + 8);
+    g_unmodified = [&] { return std::vector<int>(zs, zs + 8) == before && xs[0] == 1 && ys[7] == 8; };
+    using M      = etl::mdspan<int, etl::dextents<int, 1>>;
+    int n        = 1 + static_cast<int>(a % 4);
+    int m        = bad ? n + 1 + static_cast<int>(a / 4 % 3) : n;
+    // s == 1: only the output differs; otherwise the second input differs
+    M x(xs, n), y(ys, s == 1 ? n : m), z(zs, s == 1 ? m : n);
+    switch (s) {
+    case 0:
+    case 1: etl::linalg::add(x, y, z); break;
+    case 2: etl::linalg::copy(x, y); break;
+    default: etl::linalg::swap_elements(x, y); break;
+    }
+    return true;
+}
 #if defined(TETL_ENABLE_CONTRACT_CHECKS_SAFE)
 bool array_index(int s, u32 a, bool bad)
 {
@@ -985,6 +1039,9 @@ Entry const catalogue[] = {
     Entry{"strchr/strcpy/strncpy/memmove/wcscpy/wcsncpy(nullptr)", "strchr.hpp|strcpy.hpp|strncpy.hpp|memmove.hpp|wcscpy.hpp|wcsncpy.hpp", 7, &cstr_null},
     Entry{"to_string<3>(too many digits)", "to_string.hpp", 3, &to_string_small},
     Entry{"static_set<int,4>(first,last)", "static_set.hpp", 1, &static_set_ctor},
+    Entry{"bitset<8>(string_view longer than the bitset)", "bitset.hpp", 2, &bitset_string_ctor},
+    Entry{"static_vector<int,0> push_back/emplace_back/pop_back/insert", "static_vector.hpp", 1, &zero_capacity_vector},
+    Entry{"linalg add/copy/swap_elements with mismatched extents", "blas1_add.hpp|blas1_copy.hpp|blas1_swap_elements.hpp", 4, &linalg_extents},
 #if defined(TETL_ENABLE_CONTRACT_CHECKS_SAFE)
     Entry{"array<int,4>::operator[] (SAFE)", "array.hpp", 2, &array_index},
 #endif
